@@ -1,0 +1,24 @@
+//go:build verif
+
+package rdb
+
+// Contracts for the verification machinery in /verif (build tag "verif").
+
+// ---- stream expansion: the master entry's field count belongs to the whole listpack (C03) -----
+// Entries with the SAMEFIELDS flag take their field names - and their number - from the master
+// entry; an entry with its own field list must not change that number for the entries after it.
+//   masterSet  1 once the master entry's num-fields of the current listpack has been read
+//@ func StreamParser.ExecCmd
+//@   arith int
+//@   properties C03
+//@   replay rdb_streamExpansion
+//@   ghost var masterSet mathint = 0
+//@   requires nonnil: sp != nil
+//@   modifies heap, masterSet
+//@   set masterSet = 0 after store masterMs
+//@   assert after store numFields: master_field_count_is_read_once_per_listpack: masterSet == 0
+//@   set masterSet = 1 after store numFields
+
+//@ func types.NewListpack(data) (lp)
+//@   trusted here: allocates the cursor over data (its header parse is not decided here)
+//@   ensures fresh_cursor: lp != nil && fresh(lp)
